@@ -259,6 +259,84 @@ func (c *Ctx) jcsRules() {
 	}
 	c.Min("C05.T2", 1)
 
+	// ---- P4 string tokens are re-serialised: in the element dispatcher, the arm for '"' returns the string writer applied
+	// to the string reader's result and nothing else — no verbatim pass-through of the input text (the input may spell
+	// a character in a way the canonical form does not: "\/" for "/")
+	{
+		var writer, elem *ssa.Function
+		for _, f := range cls {
+			forEachInstr(f, func(in ssa.Instruction) {
+				if cl, ok := in.(*ssa.Call); ok && cl.Call.StaticCallee() != nil && cl.Call.StaticCallee().String() == "fmt.Sprintf" && c.Path(cl.Call.Args[0], nil) == `"\\u%04x"` {
+					writer = f
+				}
+			})
+			tbl := c.caseTable(f, nil, func(p string) bool { return true })
+			if tbl["34"] != nil && tbl["123"] != nil && tbl["91"] != nil {
+				elem = f
+			}
+		}
+		okStr, detail := false, "no element dispatcher (a function with arms for '{', '[' and '\"') found"
+		if elem != nil && writer != nil {
+			arm := c.caseTable(elem, nil, func(p string) bool { return true })["34"]
+			okStr, detail = true, ""
+			nRet := 0
+			for b := range reach(arm, nil) {
+				// only the arm's own blocks: those it dominates
+				if !arm.Dominates(b) {
+					continue
+				}
+				r, isR := b.Instrs[len(b.Instrs)-1].(*ssa.Return)
+				if !isR {
+					continue
+				}
+				nRet++
+				good := false
+				if cl, isC := r.Results[0].(*ssa.Call); isC && len(cl.Call.Args) == 1 {
+					cs := c.Callees(&cl.Call)
+					if len(cs) == 1 && cs[0] == writer {
+						if in, isIn := cl.Call.Args[0].(*ssa.Call); isIn && len(in.Call.Args) == 0 {
+							if ics := c.Callees(&in.Call); len(ics) == 1 && ics[0].Parent() == tr {
+								good = true
+							}
+						}
+					}
+				}
+				if !good {
+					okStr = false
+					detail = "exit at " + c.pos(r.Pos()) + " returns " + c.Path(r.Results[0], nil)
+				}
+			}
+			if _, self := reach(arm, nil)[arm]; !self {
+				if r, isR := arm.Instrs[len(arm.Instrs)-1].(*ssa.Return); isR {
+					_ = r
+				}
+			}
+			if nRet == 0 {
+				// the arm itself ends in the return
+				if r, isR := arm.Instrs[len(arm.Instrs)-1].(*ssa.Return); isR {
+					nRet = 1
+					okStr = false
+					if cl, isC := r.Results[0].(*ssa.Call); isC && len(cl.Call.Args) == 1 {
+						if cs := c.Callees(&cl.Call); len(cs) == 1 && cs[0] == writer {
+							if in, isIn := cl.Call.Args[0].(*ssa.Call); isIn && len(in.Call.Args) == 0 {
+								if ics := c.Callees(&in.Call); len(ics) == 1 && ics[0].Parent() == tr {
+									okStr = true
+								}
+							}
+						}
+					}
+					if !okStr {
+						detail = "the arm returns " + c.Path(r.Results[0], nil)
+					}
+				} else {
+					okStr, detail = false, "the arm has no exit of its own"
+				}
+			}
+		}
+		c.Check("C05.P4", "string-tokens-through-reader-and-writer", okStr, tr.Pos(), "a string value is emitted as writer(reader()) — the parsed string re-escaped, never the input text "+detail)
+	}
+	c.Min("C05.P4", 1)
+
 	// ---- K1 control characters
 	{
 		okW, okR := false, false
